@@ -105,7 +105,7 @@ func genPlan(t *rapid.T) Plan {
 		case k < 13:
 			st.Kind = KDemote
 		case k < 17:
-			st.Kind, st.Arg = KHandoff, rapid.SampledFrom([]string{"node", "node", "node", "bogus", "self"}).Draw(t, "arg")
+			st.Kind, st.Arg = KHandoff, rapid.SampledFrom([]string{"node", "node", "node", "bogus", "self", "node-renew-fails"}).Draw(t, "arg")
 		case k < 18:
 			st.Kind = KStop
 		case k < 19:
@@ -380,9 +380,21 @@ func runPlan(c *pbt.Case, p Plan) {
 			connected := pr.Store.SubscriberByNodeID(target) != nil
 			_, leaseBefore := cl.Svc.Holder()
 			pr.CloseConns()
+			if st.Arg == "node-renew-fails" {
+				// the request is accepted, then the primary's last renewal before the
+				// transfer fails: the handoff is abandoned and the primary keeps the lease
+				cl.Svc.SetRenewErr(pr.Name, errScripted)
+			}
 			ctx, cancel := context.WithTimeout(context.Background(), 3*time.Second)
 			err := pr.Store.Handoff(ctx, target)
 			cancel()
+			if st.Arg == "node-renew-fails" {
+				time.Sleep(5 * time.Millisecond)
+				cl.Svc.SetRenewErr(pr.Name, nil)
+				c.Label("handoff-abandoned")
+				losses++
+				break
+			}
 			c.Labelf("handoff:%s:connected=%v:err=%v", st.Arg, connected, err != nil)
 			if !connected && err == nil {
 				c.Failf("C08/handoff-to-unconnected-node", "%s: Handoff to node id %x, which is not a connected replica, was accepted", when, target)
